@@ -14,7 +14,11 @@
      - ResolvePattern returns the pattern exactly as it was given to Handle, at every probe
        point, and asking never changes later answers;
      - middlewares given to Use before the first Handle wrap every request in Use order;
-       Use after the first Handle is refused (chi panics) and changes nothing.
+       Use after the first Handle is refused (chi panics) and changes nothing;
+     - registration is a HISTORY of Handle calls: a route is identified by its method and its pattern with the
+       wildcard names erased (`Shape`: chi's tree node); a later Handle for the same (method, shape) REPLACES the
+       earlier one - its handler runs, Vars uses its names, ResolvePattern reports its pattern.  The same shape
+       under another method, or with / without a trailing slash, is a different route and leaves the others alone.
    What the statement leaves open is left open here: which of several matching patterns wins
    (`picked` is any member of the matching set), and whether a path that only matches under
    another method is answered 404 or 405.
@@ -27,6 +31,9 @@
      mux.preroute_matches_decoded_path    that early Match uses URL.Path even when chi will route on RawPath
      mux.resolve_trims_trailing_slash     chi's RoutePattern() trims a trailing slash of the registered pattern and
                                           ResolvePattern does not put it back
+     mux.rereg_keeps_first_wildcard_name  the catch-all name table keeps the name of the FIRST registration of a
+                                          (method, rewritten pattern); not found on the unchanged tree - it is the
+                                          vacuity guard of the registration histories (seeded change C16d-1 does this)
    The quirks of chi's RoutePattern() (inner "/*" dropped, trailing "//" and "/" trimmed) are modelled as they
    are, so that each deviation alone predicts exactly what the code with only that defect does. *)
 EXTENDS PathStrings, TLC
@@ -60,7 +67,14 @@ Pool == <<
   <<L(X), V("name")>>,                \* 11  /x/{name}
   <<L(Z), L(<<>>)>>,                  \* 12  /z/
   <<V("id"), V("name")>>,             \* 13  /{id}/{name}
-  <<L(X), W("tail")>>                 \* 14  /x/{*tail}   (same route as 4 under another catch-all name)
+  <<L(X), W("tail")>>,                \* 14  /x/{*tail}   (same route as 4 under another catch-all name)
+  <<L(X), V("name"), W("tail")>>,     \* 15  /x/{name}/{*tail}  (same route as 7, every name changed)
+  <<L(X), V("id"), W("tail")>>,       \* 16  /x/{id}/{*tail}    (same route as 7, same rewritten pattern, other catch-all name)
+  <<L(Z)>>,                           \* 17  /z           (12 without its trailing slash)
+  <<L(X), V("id"), L(<<>>)>>,         \* 18  /x/{id}/     (3 with a trailing slash)
+  <<L(X), L(<<>>)>>,                  \* 19  /x/          (2 with a trailing slash; the prefix of 4 / 14)
+  <<V("name"), V("id")>>,             \* 20  /{name}/{id} (same route as 13 with the two names swapped)
+  <<W("tail")>>                       \* 21  /{*tail}     (same route as 6)
 >>
 VarShapes == {3, 4, 5, 6, 7, 9, 13} \cap Shapes
 MethodSet == {"GET", "POST"}
@@ -74,6 +88,8 @@ PatString(ss) == CatS([i \in 1..Len(ss) |-> "/" \o ss[i]])      \* the text hand
 VarPos(segs) == SelectSeq(Indices(segs), LAMBDA i : segs[i].k # "lit")
 KeysOf(segs) == LET P == VarPos(segs) IN [j \in 1..Len(P) |-> IF segs[P[j]].k = "wild" THEN "*" ELSE segs[P[j]].v[1]]
 NamesOf(segs) == LET P == VarPos(segs) IN [j \in 1..Len(P) |-> segs[P[j]].v[1]]
+\* the pattern with the wildcard names erased: what identifies a node of chi's routing tree
+Shape(segs) == [i \in 1..Len(segs) |-> IF segs[i].k = "lit" THEN GoaSeg(segs[i]) ELSE IF segs[i].k = "var" THEN "{}" ELSE "*"]
 
 \* declarative matching of a token string (split at literal slashes) against a pattern
 \* Whether an *empty* segment satisfies {name} is not said by the statement (chi accepts it in the middle of a
@@ -108,13 +124,22 @@ MwPrefixes(n) == UNION {{[i \in 1..k |-> UseOp(i, pr[i])] : pr \in [1..k -> BOOL
 
 Entries == [s : Shapes \cap (1..Len(Pool)), m : MethodSet]
 EntryOrd(e) == 2 * e.s + (IF e.m = "GET" THEN 0 ELSE 1)
-\* ascending sequences of entries; one method never gets the same route under two catch-all names
-\* (the second Handle would replace the first: not a configuration the statement speaks about)
+\* ascending sequences of entries: pattern SETS (registered in both orders).  One method getting the same rewritten
+\* pattern twice is a matter of registration order, not of the set: see the "history" family below.
 AscSeqs(k) == {q \in [1..k -> Entries] : \A i \in 1..k : \A j \in 1..k : i < j =>
                  /\ EntryOrd(q[i]) < EntryOrd(q[j])
                  /\ ~(q[i].m = q[j].m /\ ChiPat(Pool[q[i].s]) = ChiPat(Pool[q[j].s]))}
 Rev(q) == [i \in 1..Len(q) |-> q[Len(q) + 1 - i]]
 HandleSeq(q) == [i \in 1..Len(q) |-> HandleOp(i, q[i].m, Pool[q[i].s])]
+
+\* registration HISTORIES: two or three Handle calls over a cluster of related patterns - the same route under other
+\* wildcard names ({id}/{name}, {*rest}/{*tail}, both, names swapped), with and without a trailing slash - and both
+\* methods, in every order and with repetitions: a later call may repeat an earlier one exactly, rename its
+\* wildcards, move it to the other method, or differ by the trailing slash only.  The first call is a GET (the
+\* two methods are interchangeable).  `Shapes` selects the clusters (those it contains).
+Clusters == {{3, 11, 18}, {4, 14, 19}, {7, 15, 16}, {13, 20}, {12, 17, 1}, {6, 21, 1}}
+HistEntries(c) == [s : c, m : MethodSet]
+HistSeqs(c) == UNION {{q \in [1..k -> HistEntries(c)] : q[1].m = "GET"} : k \in 2..3}
 
 Plans ==
   IF Profile = "values" THEN
@@ -122,6 +147,8 @@ Plans ==
   ELSE IF Profile = "dispatch" THEN
     LET sets == UNION {AscSeqs(k) : k \in 1..MaxPats} IN
     {<<UseOp(1, TRUE)>> \o HandleSeq(q) : q \in sets \cup {Rev(s) : s \in sets}}
+  ELSE IF Profile = "history" THEN
+    {<<UseOp(1, TRUE)>> \o HandleSeq(q) : q \in UNION {HistSeqs(c) : c \in {d \in Clusters : d \subseteq Shapes}}}
   ELSE \* "mw": registration order of Use and Handle, several middlewares, late Use
     LET pairs == {<<3, 4>>, <<1, 12>>, <<7, 8>>, <<6, 2>>} IN
     {mw \o <<HandleOp(1, "GET", Pool[p[1]])>> \o l1 \o <<HandleOp(2, "GET", Pool[p[2]])>> \o l2 :
@@ -139,6 +166,14 @@ SmallAssign(segs) ==
   LET nv == Len(VarPos(segs)) IN {a \in [1..nv -> Small0] : NonEmptyAt(segs, a)}
 
 HasWild(segs) == segs[Len(segs)].k = "wild"
+\* histories: few values (the registration order is the subject), different values at different positions so that
+\* a value returned under the name of another position shows
+HistVals == {Z, <<"x", "/", "z">>, <<"%", "4", "1">>}
+HistAssign(segs) ==
+  LET nv == Len(VarPos(segs)) IN
+  IF nv = 0 THEN {<<>>}
+  ELSE IF nv = 1 THEN {<<v>> : v \in HistVals \cup (IF HasWild(segs) THEN {<<>>} ELSE {})}
+  ELSE {<<Z, <<"%", "4", "1">>>>, <<<<"x", "/", "z">>, Z>>} \cup (IF HasWild(segs) THEN {<<X, <<>>>>} ELSE {})
 EncsFor(segs, all) == {"min"} \cup (IF all THEN {"all"} ELSE {}) \cup (IF HasWild(segs) THEN {"seg"} ELSE {})
 Req(m, w, acc, hid, a, enc) == [method |-> m, wire |-> w, accept |-> acc, src |-> [hid |-> hid, vals |-> a, enc |-> enc]]
 Stray == {<<Lit("/"), Lit("4")>>, <<Lit("/"), Lit("x"), Lit("/")>>,
@@ -153,6 +188,11 @@ Requests(p) ==
     UNION {{Req(m, Build(hs[i].segs, a, enc), "", hs[i].id, a, enc) : a \in SmallAssign(hs[i].segs), enc \in EncsFor(hs[i].segs, FALSE), m \in MethodSet}
            : i \in 1..Len(hs)}
     \cup {Req("GET", w, "", 0, <<>>, "-") : w \in Stray}
+  ELSE IF Profile = "history" THEN
+    \* every call of the history - also one that a later call replaced - is asked for under its own method
+    UNION {{Req(hs[i].method, Build(hs[i].segs, a, enc), "", hs[i].id, a, enc) : a \in HistAssign(hs[i].segs), enc \in EncsFor(hs[i].segs, FALSE)}
+           : i \in 1..Len(hs)}
+    \cup {Req(m, w, "", 0, <<>>, "-") : w \in Stray, m \in MethodSet}
   ELSE
     UNION {{Req("GET", Build(hs[i].segs, a, "min"), "", hs[i].id, a, "min") : a \in SmallAssign(hs[i].segs)} : i \in 1..Len(hs)}
     \cup {Req(m, w, acc, 0, <<>>, "-") : w \in Stray, acc \in Accepts, m \in MethodSet}
@@ -202,11 +242,18 @@ DoHandle(o) ==
   /\ pc = "setup" /\ o.op = "handle"
   /\ IF ~flushed THEN chain' = chain \o pending /\ pending' = <<>> /\ flushed' = TRUE   \* + NotFound handler installed
                  ELSE UNCHANGED <<chain, pending, flushed>>
-  /\ LET chi == ChiPat(o.segs) IN
-     /\ routes' = Append(routes, [method |-> o.method, hid |-> o.id, segs |-> o.segs, chi |-> chi, keys |-> KeysOf(o.segs)])
+  /\ LET chi == ChiPat(o.segs)
+         sh == Shape(o.segs)
+         \* chi: the endpoint (handler, pattern, parameter keys) of this method on the tree node of the pattern is
+         \* set - replaced when the node already has one for the method
+         others == SelectSeq(routes, LAMBDA r : ~(r.method = o.method /\ r.shape = sh)) IN
+     /\ routes' = Append(others, [method |-> o.method, hid |-> o.id, segs |-> o.segs, chi |-> chi, shape |-> sh, keys |-> KeysOf(o.segs)])
+     \* mux.wildcards[method + "::" + rewritten pattern] = name (overwritten by a later registration)
      /\ wildtab' = IF o.segs[Len(o.segs)].k = "wild"
-                   THEN {w \in wildtab : ~(w.method = o.method /\ w.chi = chi)}
-                        \cup {[method |-> o.method, chi |-> chi, name |-> o.segs[Len(o.segs)].v[1]]}
+                   THEN IF Dev("mux.rereg_keeps_first_wildcard_name") /\ \E w \in wildtab : w.method = o.method /\ w.chi = chi
+                        THEN wildtab
+                        ELSE {w \in wildtab : ~(w.method = o.method /\ w.chi = chi)}
+                             \cup {[method |-> o.method, chi |-> chi, name |-> o.segs[Len(o.segs)].v[1]]}
                    ELSE wildtab
   /\ ip' = ip + 1
   /\ UNCHANGED <<pc, useres, url, picked, prepicked, rctx, depth, obs>>
@@ -358,9 +405,15 @@ Spec == Init /\ [][Next]_vars
 Done == pc = "done"
 Handles == HandlesOf(plan)
 HandleById(h) == CHOOSE o \in {Handles[i] : i \in 1..Len(Handles)} : o.id = h
+\* the registration history read by the rule "the last Handle of a (method, route) wins": the call that stands for
+\* Handle call i once the whole script has run, and the calls still standing
+SameRoute(a, b) == a.method = b.method /\ Shape(a.segs) = Shape(b.segs)
+LastIdx(i) == CHOOSE j \in i..Len(Handles) : SameRoute(Handles[j], Handles[i]) /\ \A k \in (j + 1)..Len(Handles) : ~SameRoute(Handles[k], Handles[i])
+Live == {Handles[i] : i \in {k \in 1..Len(Handles) : LastIdx(k) = k}}
+Standing(h) == LET i == CHOOSE k \in 1..Len(Handles) : Handles[k].id = h IN Handles[LastIdx(i)]
 \* the declarative matching set, computed on the wire form (not on what the URL parser kept)
-DeclMay(m) == {o \in {Handles[i] : i \in 1..Len(Handles)} : o.method = m /\ MatchSegs(Split(req.wire), o.segs, TRUE)}
-DeclMust(m) == {o \in {Handles[i] : i \in 1..Len(Handles)} : o.method = m /\ MatchSegs(Split(req.wire), o.segs, FALSE)}
+DeclMay(m) == {o \in Live : o.method = m /\ MatchSegs(Split(req.wire), o.segs, TRUE)}
+DeclMust(m) == {o \in Live : o.method = m /\ MatchSegs(Split(req.wire), o.segs, FALSE)}
 DeclAny == \E i \in 1..Len(Handles) : MatchSegs(Split(req.wire), Handles[i].segs, TRUE)
 AsMap(segs, a) == LET N == NamesOf(segs) IN
   [n \in {N[j] : j \in 1..Len(N)} \cup {"#"} |-> IF n = "#" THEN <<>> ELSE a[CHOOSE j \in 1..Len(N) : N[j] = n]]
@@ -369,14 +422,17 @@ Probes == {obs.probes[i] : i \in 1..Len(obs.probes)}
 DispatchToMatch == Done =>
   /\ (DeclMust(req.method) # {} => obs.reached # 0)
   /\ (obs.reached # 0 => obs.reached \in {o.id : o \in DeclMay(req.method)})
-\* a URL built by substituting escaped values into a pattern is routed to that pattern (when it is the only
-\* candidate) and every probe yields the original values
+\* a URL built by substituting escaped values into a pattern is routed to that pattern - to the Handle call that
+\* stands for it at the end of the registration history - (when it is the only candidate) and every probe yields
+\* the original values under the names of the standing call
 CaptureInverse == Done /\ req.src.hid # 0 /\ req.method = HandleById(req.src.hid).method =>
-  /\ HandleById(req.src.hid) \in DeclMust(req.method)
-  /\ (DeclMay(req.method) = {HandleById(req.src.hid)} =>
-        /\ obs.reached = req.src.hid
-        /\ \A p \in Probes : p.vars = AsMap(HandleById(req.src.hid).segs, req.src.vals))
-\* whatever was reached, the variables are those of its pattern, decoded once from the wire
+  LET st == Standing(req.src.hid) IN
+  /\ st \in DeclMust(req.method)
+  /\ (DeclMay(req.method) = {st} =>
+        /\ obs.reached = st.id
+        /\ \A p \in Probes : p.vars = AsMap(st.segs, req.src.vals))
+\* whatever was reached, the variables are those of its pattern (the pattern of that very Handle call, not of an
+\* earlier call for the same route), decoded once from the wire
 VarsConsistent == Done /\ obs.reached # 0 =>
   LET o == HandleById(obs.reached) IN
   \A p \in Probes : p.vars = AsMap(o.segs, [j \in 1..Len(VarPos(o.segs)) |-> Decode(Captured(Split(req.wire), o.segs)[j])])
